@@ -540,7 +540,9 @@ def _save(ci, fi, tape):
              ('dag', ['pyramid', 2], ['kthlist', 'gml', 'dot', 'dimacs']), ('dag', ['path', 11], ['kthlist', 'gml', 'dot', 'dimacs']),
              ('simple', ['complete', 3, 'splitedges', 2], ['kthlist', 'gml', 'dot', 'dimacs']),
              ('simple', ['empty', 3, 'plantclique', 2, 'splitedges', 1], ['kthlist', 'gml', 'dot', 'dimacs']),
-             ('bipartite', ['empty', 2, 2, 'addedges', 2], ['kthlist', 'gml', 'dot', 'matrix'])]
+             ('bipartite', ['empty', 2, 2, 'addedges', 2], ['kthlist', 'gml', 'dot', 'matrix']),
+             ('bipartite', ['complete', 2, 3], ['kthlist', 'gml', 'dot', 'matrix']),
+             ('bipartite', ['complete', 3, 1, 'plantbiclique', 1, 1], ['kthlist', 'gml', 'dot', 'matrix'])]
     gt, spec, fmts = specs[ci]
     fmt = fmts[fi]
     fs = _FS()
@@ -568,11 +570,11 @@ def _save(ci, fi, tape):
 
 def h_e_save(ci: int, fi: int) -> bool:
     """
-    pre: 0 <= ci <= 8 and 0 <= fi <= 3
+    pre: 0 <= ci <= 10 and 0 <= fi <= 3
     post: _
     """
     tape = Tape(limit=5)
-    return _finish(untraced(_save, pick(ci, 0, 8), pick(fi, 0, 3), tape), tape)
+    return _finish(untraced(_save, pick(ci, 0, 10), pick(fi, 0, 3), tape), tape)
 
 
 # ------------------------------------------------- deterministic adversarial draw streams
